@@ -116,6 +116,10 @@ func (a cpuA) Trace(w io.Writer) {
 	o := a.c.DisassembleCurrentPC(oa[:0])
 	_, _ = w.Write(o)
 }
+
+// TraceNoBuffer asks for the trace line without offering a buffer and returns the slice the
+// library hands back (the caller may keep it).
+func (a cpuA) TraceNoBuffer() []byte { return a.c.DisassembleCurrentPC(nil) }
 func (a cpuA) Regs() Regs {
 	c := a.c
 	return Regs{PC: c.PC, SP: c.SP, RA: c.RA, RX: c.RX, RY: c.RY, RD: c.RD, RAh: c.RAh, RAl: c.RAl, RXl: c.RXl, RYl: c.RYl,
